@@ -139,31 +139,36 @@ func (g *DirectedTargetGraph) GetDependants(target model.BuildNode) []model.Buil
 }
 
 // GetDescendants returns a list of nodes that are descendants (dependants) of the given node.
-// Recurses via the outEdges of each node.
+// Recurses via the outEdges of each node; every descendant is returned once.
 func (g *DirectedTargetGraph) GetDescendants(target model.BuildNode) []model.BuildNode {
-	var descendants []model.BuildNode
-	for _, descendant := range g.outEdges[target.GetLabel()] {
-		descendants = append(descendants, descendant)
-
-		// Recurse
-		recursiveDescendants := g.GetDescendants(descendant)
-		descendants = append(descendants, recursiveDescendants...)
-	}
-	return descendants
+	return collectReachable(g.outEdges, target)
 }
 
 // GetAncestors returns a list of nodes that are ancestors (transitive dependencies) of the given node.
-// Recurses via the inEdges of each node.
+// Recurses via the inEdges of each node; every ancestor is returned once.
 func (g *DirectedTargetGraph) GetAncestors(target model.BuildNode) []model.BuildNode {
-	var ancestors []model.BuildNode
-	for _, ancestor := range g.inEdges[target.GetLabel()] {
-		ancestors = append(ancestors, ancestor)
+	return collectReachable(g.inEdges, target)
+}
 
-		// Recurse
-		recursiveAncestors := g.GetAncestors(ancestor)
-		ancestors = append(ancestors, recursiveAncestors...)
+// collectReachable returns every node reachable from start via the given edges exactly once
+// (in depth-first pre-order). Visiting each node only once keeps this linear in the size of
+// the graph instead of enumerating every path, of which diamond-shaped graphs have exponentially many.
+func collectReachable(edges map[label.TargetLabel][]model.BuildNode, start model.BuildNode) []model.BuildNode {
+	visited := map[label.TargetLabel]struct{}{start.GetLabel(): {}}
+	var reachable []model.BuildNode
+	var visit func(node model.BuildNode)
+	visit = func(node model.BuildNode) {
+		for _, next := range edges[node.GetLabel()] {
+			if _, alreadyVisited := visited[next.GetLabel()]; alreadyVisited {
+				continue
+			}
+			visited[next.GetLabel()] = struct{}{}
+			reachable = append(reachable, next)
+			visit(next)
+		}
 	}
-	return ancestors
+	visit(start)
+	return reachable
 }
 
 // hasNode checks whether a node exists in the graph.
